@@ -414,7 +414,7 @@ func (self *SLock) checkServerProtocolSession() error {
 			if len(serverProtocol.proxys) > 4 {
 				serverProtocol.Lock()
 				for i := 4; i < len(serverProtocol.proxys); i++ {
-					serverProtocol.proxys[i].serverProtocol = defaultServerProtocol
+					serverProtocol.proxys[i].setTarget(defaultServerProtocol)
 				}
 				serverProtocol.proxys = serverProtocol.proxys[:4]
 				serverProtocol.Unlock()
@@ -428,7 +428,7 @@ func (self *SLock) checkServerProtocolSession() error {
 			if len(serverProtocol.proxys) > 4 {
 				serverProtocol.Lock()
 				for i := 4; i < len(serverProtocol.proxys); i++ {
-					serverProtocol.proxys[i].serverProtocol = defaultServerProtocol
+					serverProtocol.proxys[i].setTarget(defaultServerProtocol)
 				}
 				serverProtocol.proxys = serverProtocol.proxys[:4]
 				serverProtocol.Unlock()
@@ -442,7 +442,7 @@ func (self *SLock) checkServerProtocolSession() error {
 			if len(serverProtocol.proxys) > 4 {
 				serverProtocol.Lock()
 				for i := 4; i < len(serverProtocol.proxys); i++ {
-					serverProtocol.proxys[i].serverProtocol = defaultServerProtocol
+					serverProtocol.proxys[i].setTarget(defaultServerProtocol)
 				}
 				serverProtocol.proxys = serverProtocol.proxys[:4]
 				serverProtocol.Unlock()
